@@ -409,6 +409,19 @@ impl Property for C18 {
             meta,
         }
     }
+    fn probes(&self, case: &Case, rec: &RunRecord) -> BTreeMap<String, u64> {
+        let mut m = BTreeMap::new();
+        m.insert(format!("family_{}", case.scenario.family), 1);
+        if let Some(g) = rec.groups.first() {
+            if g.procs.iter().any(|p| matches!(p.status, Some(s) if s < 0) && !p.killed && p.name == "simdo") {
+                m.insert("script_terminated_by_signal".into(), 1);
+            }
+            if g.events.iter().any(|e| e.text.starts_with("exec redo-log")) {
+                m.insert("live_follower_started".into(), 1);
+            }
+        }
+        m
+    }
     fn nontrivial(&self, _case: &Case, rec: &RunRecord) -> bool {
         rec.groups.first().map_or(false, |g| {
             g.preemptions > 0 && g.events.iter().filter(|e| e.text.starts_with("do-begin")).count() >= 2
